@@ -174,3 +174,16 @@ reg('C01',
     'Molecules above the small scope are covered by the text families and corpus only.',
     'bounded exhaustive enumeration of descriptions incl. stateless choice-point exploration of the random-order writer (deviation bounded)',
     'DESIGN.md s3.4, s5 C01')
+
+reg('C02',
+    'For every molecule of D(<=5,1) (thorough <=5,2), stereo / chiral-spiro / radical / multi-component / isotope families and the corpus stride, every '
+    'subset of the lossless options {a, A, m, h} is combined with the canonical order and with every traversal the random-order writer can produce '
+    '(choice-point explorer; all traversals up to 7 atoms, <=2 deviations up to 9, <=1 above). Each written text (with its CXSMILES block) is read '
+    'back and compared with the original UNDER THE WRITTEN ATOM ORDER (parse order or :map numbers): element, isotope, charge, radical, hydrogens, bond '
+    'orders, and the sign of every tetrahedral / allene / cis-trans label relative to ascending-numbered neighbours; RDKit must read the text as the '
+    'same stereoisomer. Injectivity: over D(<=5,2) (thorough <=6,2) the map canonical string -> brute-force canonical code of the labelled graph is a '
+    'function, and stereoisomers that RDKit distinguishes never share a string.',
+    'Trusted: RDKit as the independent reader; vf/oracle/iso.py canonical codes. Signs are compared through the library sign translation on both sides '
+    '(its permutation consistency is C12). Aromatic inputs are normalised (kekule+thiele) before writing.',
+    'bounded exhaustive enumeration of molecules x format options x writer traversals (stateless choice-point exploration, deviation bounded)',
+    'DESIGN.md s3.4, s5 C02')
